@@ -7,6 +7,10 @@ Decided here (structural necessary conditions, not the behaviour):
   4 SPAN0     no diagnostic of the checker is built from `Span::default()`
   5 DEPCHECK  every program that is lowered was type-checked first (dependency modules included)
   6 ARGTYPES  the user-function call path consumes the callee's parameter types
+  7 NOMINAL   types_compatible never equates two distinct nominal / generic heads (decision table)
+  8 CTXSCOPE  per-function checker context (return type, error type, loop depth ...) set on entry to a nested body
+              is restored on every exit
+  9 NAMEEQ    two run-time names are related only by equality / hash lookup, never by prefix / suffix / substring
 """
 from engines import (AST, adts_with_prefix, bearing, body_and_closures, callee_generic, callee_name, cover,
                      dominated_by_any_edge, exhaust, field_is_bearing, is_span_field, op_place, short,
